@@ -45,3 +45,10 @@ Fixpoint set_nth {A} (l : list A) (i : nat) (x : A) : option (list A) :=
   | _ :: r, O => Some (x :: r)
   | y :: r, S j => do r' <- set_nth r j x; Some (y :: r')
   end.
+Fixpoint omapN {A} (f : nat -> option A) (l : list nat) : option (list A) :=
+  match l with [] => Some [] | i :: r => do x <- f i; do t <- omapN f r; Some (x :: t) end.
+Fixpoint nlist_cmp (a b : list N) : comparison :=
+  match a, b with
+  | [], [] => Eq | [], _ => Lt | _, [] => Gt
+  | x :: a', y :: b' => match x ?= y with Eq => nlist_cmp a' b' | c => c end
+  end.
